@@ -15,6 +15,14 @@ CLAIMED = {
             "scanner, so one path stands for all strings with that class pattern.",
             "NoSchema stub (no tag lookup); split_into_groups recompiled with `is`->`==` on characters; CrossHair's "
             "str model and z3 trusted; nothing claimed beyond the length bound."),
+    "C18": ("3/C18",
+            "Bounded, solver-decided crash-point and restore checking: BackupManager's real code runs on an in-memory "
+            "file system whose crash index, torn-write cut, file contents and operation selectors are symbolic; z3 "
+            "decides for every crash step (all <=30 steps of an uninterrupted run), every torn prefix in the bound "
+            "and every content that a later manager never lists a half-valid backup, and that restore is exact, "
+            "selective and idempotent. Right level: interruption points are an integer the solver ranges over.",
+            "MemFS stub semantics (atomic per step, program-order durability, no fsync reordering); fixed file "
+            "names/tasks; contents <=2 chars (copied, never branched on); CLI/pandas paths outside."),
 }
 
 NOT_APPLICABLE = {
